@@ -481,6 +481,17 @@ fn mesh(spec: &MeshSpec, t: &Iso3D, qs: &[Query]) -> Verdict {
         if (iso * p0 - p1).norm() > tol {
             cx.label("closest_tie");
         }
+        // the capped and the angle-filtered projections answer alike in both frames (caps a little above and below the
+        // true distance and a generous one; decided only when the distance is clear of the cap)
+        for cap in [1.5 * d0 + 1e-3 * size, 0.6 * d0, 3.0 * size] {
+            if (d0 - cap).abs() > 1e-6 * size + 10.0 * tol {
+                let (c0, c1) = (m0.project_with_max_dist(&q, cap).is_some(), m1.project_with_max_dist(&tq, cap).is_some());
+                ensure!(c0 == c1, "C03/mesh/capped_projection_frame_dependent", "project_with_max_dist(cap {cap:e}) is_some = {c0} before and {c1} after the rigid motion (distance {d0:e})");
+                ensure!(c0 == (d0 < cap), "C03/mesh/capped_projection", "project_with_max_dist(cap {cap:e}) is_some = {c0} for a point at {d0:e}");
+                let (a0, a1) = (m0.project_with_tol(&q, cap, std::f64::consts::PI, None).is_some(), m1.project_with_tol(&tq, cap, std::f64::consts::PI, None).is_some());
+                ensure!(a0 == a1 && a0 == c0, "C03/mesh/filtered_projection_frame_dependent", "project_with_tol(cap {cap:e}, angle pi) is_some = {a0} before and {a1} after the rigid motion; capped projection {c0}");
+            }
+        }
         for k in 0..2 {
             let mk = || if k == 0 { DistMode::ToPoint } else { DistMode::ToPlane };
             let v0 = m0.measure_point_deviation(&q, mk()).value();
